@@ -4,10 +4,10 @@
     arbitrary noise lines in between and inside, is returned exactly, in order, one data point
     per iteration (numbered by position 1..k, stamped with the invocation number by construction).
     Line level (which line shapes the GENERATED expressions classify how): proved for SavinaLog
-    and for the two line shapes of TimeAdapter's GNU-time format (C05_line_savina, C05_savina_exact,
-    C05_line_time_rss, C05_line_time_wall: the expression regenerated from the source matches a
+    for the two line shapes of TimeAdapter's GNU-time format and for JMH's measured-iteration line (C05_line_savina, C05_savina_exact,
+    C05_line_time_rss, C05_line_time_wall, C05_line_jmh: the expression regenerated from the source matches a
     rendered line with exactly the groups the adapter reads, for names, blanks and numerals of any
-    length); for the other formats (ReBenchLog, PlainSecondsLog, ValidationLog, JMH, time -p) it is
+    length); for the other formats (ReBenchLog, PlainSecondsLog, ValidationLog, time -p) it is
     decided by the differential correspondence (the engine against CPython's `re`, render-then-parse
     on the real adapters for all documented numeral shapes, units, prefixes, CR/LF) - C05 stays
     PARTIAL at line level for those. *)
@@ -64,6 +64,16 @@ Theorem C05_line_time_wall :
     = LClose [mk_meas s_total s_ms (VFloatMul1000 (ip ++ [46%N] ++ fp))].
 Proof. exact time_wall_line. Qed.
 Print Assumptions C05_line_time_wall.
+
+(** Line level, JMH: a measured iteration "Iteration<blanks><n>:<blanks><int>.<frac><blanks><unit>". *)
+Theorem C05_line_jmh :
+  forall U sp1 ds sp2 ip fp sp3 unit,
+    blanks sp1 -> digits ds -> blanks sp2 -> digits ip -> digits fp -> blanks sp3 -> no_newline unit ->
+    stops U CSpace unit ->
+    jmh_classify U (jmh_line sp1 ds sp2 ip fp sp3 unit)
+    = LClose [mk_meas s_total (strip U unit) (VFloat (ip ++ [46%N] ++ fp))].
+Proof. exact jmh_line_classified. Qed.
+Print Assumptions C05_line_jmh.
 
 (** Non-vacuity of the line theorems: "Fib.x  Iteration-12:\t3.250 ms" and "max rss (kb): 2048". *)
 Example C05_line_example :
